@@ -3,6 +3,7 @@ package props
 import (
 	"bytes"
 	"fmt"
+	"google.golang.org/protobuf/encoding/protowire"
 	"os"
 	"os/exec"
 	"path/filepath"
@@ -724,7 +725,9 @@ func genC19Case(t *sim.T, tier string) *c19Case {
 	// thorough tier, rarely: one good file beyond 16, 64 or 128 MiB (read limits, 32-bit sizes of buffers)
 	if tier == "thorough" && len(c.good) > 0 && len(c.good) <= 40 && t.Chance(1, c19GiantOdds) {
 		i := t.Choose(len(c.good))
-		c.good[i] = bloatFeed(c.good[i], []int{16 << 20, 64 << 20, 128 << 20}[t.Choose(3)]+t.Choose(4096))
+		// padded with one unknown length-delimited field (a parser skips it; the result and its dump stay small: a
+		// 128 MiB description text, dumped once per parse hypothesis, cost the harness itself more than 5 GiB)
+		c.good[i] = padUnknown(c.good[i], []int{16 << 20, 64 << 20, 128 << 20}[t.Choose(3)]+t.Choose(4096))
 		t.Probe("giant-good-file")
 	}
 	nBad := t.Choose(7)
@@ -855,6 +858,14 @@ func bloatFeed(b []byte, size int) []byte {
 		panic("harness: " + err.Error())
 	}
 	return append(append([]byte(nil), b...), eb...)
+}
+
+// padUnknown appends field 9999 (length-delimited, n zero bytes) to a serialised FeedMessage.
+func padUnknown(b []byte, n int) []byte {
+	out := append([]byte(nil), b...)
+	out = protowire.AppendTag(out, 9999, protowire.BytesType)
+	out = protowire.AppendVarint(out, uint64(n))
+	return append(out, make([]byte, n)...)
 }
 
 // bloatFeedTo bloats a feed so that the file is exactly total bytes long (if total is large enough).
